@@ -529,7 +529,7 @@ func c17(c *Ctx) {
 		}
 	}
 
-	c.R.Rule("R17.7", "upgrading DAG: parent constraints are read after the edge was added", 2, "an already satisfied parent's constraint is dropped and an upgrade violating it is chosen")
+	c.R.Rule("R17.7", "upgrading DAG: parent constraints are read after the edge was added", 1, "an already satisfied parent's constraint is dropped and an upgrade violating it is chosen")
 	if ae := c.method(pkgDag, "MapUpgradingDag", "AddEdge"); ae != nil {
 		to := ssa.Value(ae.Params[2])
 		var addN, gpc []ssa.CallInstruction
